@@ -117,6 +117,7 @@ def build_dro(U):
     m = dro.Model(3)
     x = m.dvar(3)
     t = m.dvar()
+    w = m.dvar(2)
     z = m.rvar(2)
     fs = m.ambiguity()
     for s in range(3):
@@ -127,6 +128,7 @@ def build_dro(U):
     t.adapt(z)
     m.minsup(rso.E(U["c"] @ x + t + rso.maxof((x * U["s"]) @ (U["zc"] @ z), 1.5)), fs)
     m.st(U["A"] @ x <= U["b"], x <= U["ub"], x >= U["lb"], t >= U["zv"] @ z - 3)
+    m.st(rso.E(w.sum() + x[0]) == 1.0, rso.E(w * (U["zc"] @ z)[:2] + x[:2]) == U["b"][:2] * 0.01, w <= 50, w >= -50)
     return m, {"x": x, "z": z}
 
 
@@ -206,6 +208,43 @@ print(json.dumps(out))
 """
 
 
+def _dg(v):
+    import scipy.sparse as sps
+    if sps.issparse(v):
+        c = v.tocsr()
+        # the number of columns may legitimately grow (missing columns are zero: variables declared later); the entries may not change
+        return ("sp", c.shape[0], c.data.tobytes(), c.indices.tobytes(), c.indptr.tobytes())
+    if isinstance(v, np.ndarray):
+        return ("nd", v.shape, str(v.dtype), v.tobytes() if v.dtype != object else repr(v.tolist()))
+    if isinstance(v, (int, float, str, bool, type(None), np.generic)):
+        return ("sc", repr(v))
+    if isinstance(v, (list, tuple)):
+        return ("seq", tuple(_dg(e) for e in v))
+    if hasattr(v, "linear") and hasattr(v, "const"):
+        return ("aff", _dg(v.linear), _dg(v.const))
+    return None
+
+
+def _stored_state(m):
+    """numeric content of every constraint / expression object the model stores (the objects the user holds): coefficient
+    matrices, constants, senses, multipliers, parameters -- not the back-references to models, caches or solutions"""
+    out = []
+    for k in list(getattr(m, "all_constr", [])) + [getattr(m, "obj", None)]:
+        rec = {"type": type(k).__name__}
+        for name, v in (vars(k).items() if hasattr(k, "__dict__") else []):
+            if name in ("index",):          # row number assigned at formulation for dual(): bookkeeping, not content
+                continue
+            d = _dg(v)
+            if d is not None:
+                rec[name] = d
+            elif isinstance(v, (list, tuple)) is False and hasattr(v, "__dict__") and name in ("affine", "raffine", "affine_in", "affine_out", "affine_scale"):
+                rec[name] = _dg(v)
+        for piece in getattr(k, "pieces", []) or []:
+            rec.setdefault("_piece_fields", []).append({n: _dg(v) for n, v in vars(piece).items() if _dg(v) is not None})
+        out.append(rec)
+    return out
+
+
 def determinism():
     _native()
     out = []
@@ -219,6 +258,7 @@ def determinism():
             st0 = (np.random.get_state()[1].tobytes(), np.random.get_state()[2], random.getstate())
             m1, _ = ns["build"](U1)
             m2, _ = ns["build"](U2)
+            stored0 = _stored_state(m1)
             F1, F2 = m1.do_math(), m2.do_math()
             s1 = S.snap(F1)
             again = m1.do_math()
@@ -243,7 +283,9 @@ def determinism():
                 c2 = S.snap(m1.do_math().to_socp(4, (-30, 60)))
                 soc = (S.diff(s1, S.snap(m1.do_math())), S.diff(c1, c2))
             st1 = (np.random.get_state()[1].tobytes(), np.random.get_state()[2], random.getstate())
-            return dict(soc=soc, same=S.diff(s1, S.snap(F2)), cached=again is F1, dual_same=(D1 == D2), after_dual=S.diff(s1, s1b),
+            stored1 = _stored_state(m1)
+            changed = [f"{a['type']}.{n}" for a, b in zip(stored0, stored1) for n in a if a.get(n) != b.get(n)] if len(stored0) == len(stored1) else ["number of stored constraints"]
+            return dict(stored=changed, soc=soc, same=S.diff(s1, S.snap(F2)), cached=again is F1, dual_same=(D1 == D2), after_dual=S.diff(s1, s1b),
                         after_solve=S.diff(s1, s1c), objs=(o1, o2), rng=(st0 == st1))
 
         obs, _ = check_function("rsome:<formulation pipeline>", setup, call,
@@ -252,6 +294,7 @@ def determinism():
                                  post("solving-does-not-write-to-the-formula", lambda ns, r: not r["after_solve"]),
                                  post("re-solving-gives-the-same-answer", lambda ns, r: (r["objs"][0] == r["objs"][1]) or (r["objs"][0] != r["objs"][0] and r["objs"][1] != r["objs"][1])),
                                  post("soc-approximation-leaves-the-program-unchanged-and-is-repeatable", lambda ns, r: r["soc"] is None or (not r["soc"][0] and not r["soc"][1])),
+                                 post("stored-constraints-and-objective-unchanged-by-formulation-and-solves", lambda ns, r: not r["stored"]),
                                  post("global-random-state-not-consumed", lambda ns, r: r["rng"])],
                                 mode="N", label=tname, bounded=True, replay=None)
         out += obs
